@@ -398,8 +398,7 @@ func (fr *frame) execBuiltin(b *ssa.Builtin, c *ssa.CallCommon, args []Val, st *
 		es := reg.sortOf(sl.Elem())
 		key := heapKeyElem(es)
 		hs := "(Array Int (Array Int " + es + "))"
-		ref := vc.define("append", sortInt, "(+ "+st.alloc+" 1)")
-		st.alloc = ref
+		ref := vc.newRef(st, "append")
 		h := vc.heapGet(st, key, hs)
 		base := "(select " + h + " (sref " + s.t + "))"
 		if len(args) < 2 {
@@ -413,6 +412,7 @@ func (fr *frame) execBuiltin(b *ssa.Builtin, c *ssa.CallCommon, args []Val, st *
 				elem := fmt.Sprintf("(select (select %s %s) %d)", h, m[1], j)
 				arr = fmt.Sprintf("(store %s (+ (soff %s) (slen %s) %d) %s)", arr, s.t, s.t, j, elem)
 			}
+			vc.logWrite(key, ref)
 			vc.heapSet(st, key, hs, "(store "+h+" "+ref+" "+arr+")")
 			return Val{t: vc.define("appended", sortSlice, fmt.Sprintf("(mkSlice %s (soff %s) (+ (slen %s) %d))", ref, s.t, s.t, n))}
 		}
@@ -428,6 +428,7 @@ func (fr *frame) execBuiltin(b *ssa.Builtin, c *ssa.CallCommon, args []Val, st *
 		}
 		vc.assume("true", fmt.Sprintf("(forall ((j! Int)) (=> (and (<= 0 j!) (< j! (slen %s))) (= (select %s j!) (select %s (+ (soff %s) j!)))))", s.t, arr, base, s.t))
 		vc.assume("true", fmt.Sprintf("(forall ((j! Int)) (=> (and (<= 0 j!) (< j! %s)) (= (select %s (+ (slen %s) j!)) %s)))", tlen, arr, s.t, telem))
+		vc.logWrite(key, ref)
 		vc.heapSet(st, key, hs, "(store "+h+" "+ref+" "+arr+")")
 		return Val{t: vc.define("appended", sortSlice, fmt.Sprintf("(mkSlice %s 0 (+ (slen %s) %s))", ref, s.t, tlen))}
 	case "copy":
@@ -450,12 +451,14 @@ func (fr *frame) execBuiltin(b *ssa.Builtin, c *ssa.CallCommon, args []Val, st *
 		old := "(select " + h + " (sref " + dst.t + "))"
 		vc.assume("true", fmt.Sprintf("(forall ((j! Int)) (=> (and (<= 0 j!) (< j! %s)) (= (select %s (+ (soff %s) j!)) %s)))", n, arr, dst.t, selem))
 		vc.assume("true", fmt.Sprintf("(forall ((j! Int)) (=> (or (< j! (soff %s)) (>= j! (+ (soff %s) %s))) (= (select %s j!) (select %s j!))))", dst.t, dst.t, n, arr, old))
+		vc.logWrite(key, "(sref "+dst.t+")")
 		vc.heapSet(st, key, hs, "(store "+h+" (sref "+dst.t+") "+arr+")")
 		return Val{t: n}
 	case "delete":
 		mt := types.Unalias(c.Args[0].Type()).Underlying().(*types.Map)
 		pk, ps, _, _ := fr.mapHeaps(mt)
 		h := vc.heapGet(st, pk, ps)
+		vc.logWrite(pk, args[0].t)
 		vc.heapSet(st, pk, ps, "(store "+h+" "+args[0].t+" (store (select "+h+" "+args[0].t+") "+args[1].t+" false))")
 		return Val{}
 	case "print", "println":
